@@ -138,7 +138,9 @@ class Printer:
         path_style: str = "short",  # 'short' | 'long' | 'random'
         indent: int = 4,
         first_line_proto: bool = False,
+        abs_root: Optional[str] = None,  # directory the schema is written to: files with abs_imports write absolute import paths
     ):
+        self.abs_root = abs_root
         self.f = f
         self.rng = rng
         self.semi = semi
@@ -152,6 +154,7 @@ class Printer:
         self.refs: List[Tuple[int, int, str, Any]] = []  # (line, col, text, target)
         self.close_line: Dict[int, int] = {}  # id(message) -> line of its closing brace
         self.chain: List[ScopeTable] = []
+        self._last_path: Dict[int, str] = {}
 
     # -- low level ---------------------------------------------------------
     def _r(self) -> float:
@@ -210,7 +213,11 @@ class Printer:
                             through(d, [n], 1)
         return out
 
-    def path_for(self, target: Any) -> str:
+    def path_for(self, target: Any, again: bool = False) -> str:
+        """Text that denotes `target` from the current position.  again=True: the text chosen by the previous call for the same
+        target (the position bookkeeping asks a second time; with path_style='random' a fresh draw could differ)."""
+        if again and id(target) in self._last_path:
+            return self._last_path[id(target)]
         ok = []
         for c in self.candidates(target):
             if resolve(self.chain, c, True) is target and resolve(self.chain, c, False) is target:
@@ -218,10 +225,13 @@ class Printer:
         if not ok:
             raise Unresolvable(f"{qualified_path(target)} from {self.f.proto_name}")
         if self.path_style == "long":
-            return ok[-1]
-        if self.path_style == "random" and self.rng:
-            return self.rng.choice(ok)
-        return ok[0]
+            r = ok[-1]
+        elif self.path_style == "random" and self.rng:
+            r = self.rng.choice(ok)
+        else:
+            r = ok[0]
+        self._last_path[id(target)] = r
+        return r
 
     def type_text(self, t: Any) -> str:
         if isinstance(t, Base):
@@ -243,11 +253,11 @@ class Printer:
         if isinstance(t, Arr):
             self._note_refs(lineno, t.elem)
             if t.cap_const is not None and t.cap_text is None:
-                txt = self.path_for(t.cap_const)
+                txt = self.path_for(t.cap_const, again=True)
                 k = line.index("[") + 1
                 self.refs.append((lineno, line.index(txt, k) + 1, txt, t.cap_const))
         elif isinstance(t, Ref) and t.forced_path is None:
-            txt = self.path_for(t.target)
+            txt = self.path_for(t.target, again=True)
             self.refs.append((lineno, len(line) - len(line.lstrip()) + 1 + (len("type ") if False else 0), txt, t.target))
 
     # -- definitions -------------------------------------------------------
@@ -289,9 +299,9 @@ class Printer:
         tstart = line.index(tt, (self.indent * depth + 8) if a.typedef_syntax else line.index("=")) + 1
         el = t.elem if isinstance(t, Arr) else t
         if isinstance(el, Ref) and el.forced_path is None:
-            self.refs.append((ln, tstart, self.path_for(el.target), el.target))
+            self.refs.append((ln, tstart, self.path_for(el.target, again=True), el.target))
         if isinstance(t, Arr) and t.cap_const is not None and t.cap_text is None:
-            txt = self.path_for(t.cap_const)
+            txt = self.path_for(t.cap_const, again=True)
             self.refs.append((ln, line.index(txt, line.index("[", tstart)) + 1, txt, t.cap_const))
         self.chain[-1].declare(a.name, a)
 
@@ -323,9 +333,9 @@ class Printer:
         base_col = self.indent * depth + 1
         el = t.elem if isinstance(t, Arr) else t
         if isinstance(el, Ref) and el.forced_path is None:
-            self.refs.append((ln, base_col, self.path_for(el.target), el.target))
+            self.refs.append((ln, base_col, self.path_for(el.target, again=True), el.target))
         if isinstance(t, Arr) and t.cap_const is not None and t.cap_text is None:
-            txt = self.path_for(t.cap_const)
+            txt = self.path_for(t.cap_const, again=True)
             line = self.lines[ln - 1]
             self.refs.append((ln, line.index(txt, line.index("[")) + 1, txt, t.cap_const))
         self.chain[-1].declare(fl.name, fl)
@@ -364,6 +374,8 @@ class Printer:
         if path is None:
             import posixpath
             path = posixpath.relpath(imp.file.relpath, start=self.f.subdir or ".")
+            if self.abs_root and self.f.abs_imports:
+                path = posixpath.join(self.abs_root, imp.file.relpath)
         if imp.as_name:
             ln = self._line(0, f'import {imp.as_name} "{path}"{self._semi()}')
         else:
@@ -417,7 +429,7 @@ def write_schema(root: File, directory: str, rng: Optional[random.Random] = None
 
     paths: Dict[str, str] = {}
     for g in root.all_files():
-        text = Printer(g, rng=rng, **kw).render()
+        text = Printer(g, rng=rng, abs_root=os.path.abspath(directory), **kw).render()
         p = os.path.join(directory, g.relpath)
         os.makedirs(os.path.dirname(p), exist_ok=True)
         with open(p, "w") as fh:
